@@ -1,5 +1,5 @@
 (* C01 — Linear-algebra (remora) expressions evaluate to their element-wise mathematical meaning.
-   Only statements + `exact`; proofs are in C01Proofs.v / C01OptProofs.v, definitions in C01Model.v / C01Opt.v.
+   Only statements + `exact`; proofs are in C01Proofs.v, definitions in C01Model.v / C01Opt.v.
 
    PROVED here (for all expression trees, all shapes incl. 0/1-sized and non-square, all target proxy
    chains; arithmetic over Z):
@@ -10,8 +10,10 @@
        (the model's noalias loop reads the CURRENT store while writing, as kernels::assign does);
      * max/min (and thus norm_inf) return an attained bound for every non-empty operand; sum, norms,
        trace, inner_prod are finite sums of the denotation;
-     * the rewrite rules of detail/expression_optimizers.hpp (C01Opt.v, one arm per C++
-       specialisation) preserve shape and element-wise denotation: the C01_opt_*_sound theorems below.
+   NOT YET PROVED here (in progress, coq/wip/C01OptProofs.v): that the rewrite rules of
+   detail/expression_optimizers.hpp (C01Opt.v, one arm per C++ specialisation; tied structurally to the header by
+   tools/c01_rules.py on every run) preserve shape and element-wise denotation.  Their effect is covered by the
+   correspondence run (the C++ applies them, the extracted interpreter does not) until the theorems land.
    COMPARED / MONITORED only (tools/c01.py): that the C++ implements this model — generated programs,
    exact comparison of compiled C++ (long/double, default kernels and CBLAS) against the extracted
    interpreter and an independent evaluator; dense block kernels, OpenBLAS, sparse containers.
